@@ -139,6 +139,10 @@ type inliner struct {
 	dirty     map[*ast.File]bool
 	remain    map[*types.Func]int // references that were not inlined
 	inClosure bool
+	// local closures that are only ever called: name := func(…) {…}; … name(args) …
+	lits     map[*types.Var]*ast.FuncDecl
+	litDefs  map[*types.Var]*ast.AssignStmt
+	litCalls map[*types.Var]int
 }
 
 func (in *inliner) note(format string, a ...any) {
@@ -157,6 +161,7 @@ func (in *inliner) run() bool {
 	in.cands = map[*types.Func]*ast.FuncDecl{}
 	in.dirty = map[*ast.File]bool{}
 	in.remain = map[*types.Func]int{}
+	in.collectLits()
 	// signatures of the listed helpers of this package that no longer exist under their name
 	present := map[string]bool{}
 	for _, f := range p.Syntax {
@@ -200,7 +205,7 @@ func (in *inliner) run() bool {
 			in.cands[fn] = fd
 		}
 	}
-	if len(in.cands) == 0 {
+	if len(in.cands) == 0 && len(in.lits) == 0 {
 		return in.expandRound()
 	}
 	// leaves first: a candidate that calls another candidate waits for the next round
@@ -219,7 +224,7 @@ func (in *inliner) run() bool {
 			leaf[fn] = fd
 		}
 	}
-	if len(leaf) == 0 {
+	if len(leaf) == 0 && len(in.lits) == 0 {
 		return in.expandRound()
 	}
 	in.cands = leaf
@@ -258,6 +263,37 @@ func (in *inliner) run() bool {
 		}
 		return in.expandRound()
 	}
+	// closure definitions whose calls are all inlined
+	drop := map[ast.Stmt]bool{}
+	for v, def := range in.litDefs {
+		if in.litCalls[v] == 0 && in.lits[v] != nil {
+			drop[def] = true
+		}
+	}
+	if len(drop) > 0 {
+		for _, f := range p.Syntax {
+			ast.Inspect(f, func(n ast.Node) bool {
+				filter := func(list []ast.Stmt) []ast.Stmt {
+					var out []ast.Stmt
+					for _, st := range list {
+						if !drop[st] {
+							out = append(out, st)
+						}
+					}
+					return out
+				}
+				switch x := n.(type) {
+				case *ast.BlockStmt:
+					x.List = filter(x.List)
+				case *ast.CaseClause:
+					x.Body = filter(x.Body)
+				case *ast.CommClause:
+					x.Body = filter(x.Body)
+				}
+				return true
+			})
+		}
+	}
 	// drop helpers without remaining references
 	for _, f := range p.Syntax {
 		var keep []ast.Decl
@@ -274,6 +310,91 @@ func (in *inliner) run() bool {
 	}
 	in.flush()
 	return true
+}
+
+// collectLits finds local closures that are defined once (name := func…), never assigned again and
+// used only as the callee of calls; they are inlined like helpers (their free variables are the
+// enclosing function's own, so they mean the same at the call sites unless shadowed — checked per site).
+func (in *inliner) collectLits() {
+	info := in.pkg.TypesInfo
+	in.lits = map[*types.Var]*ast.FuncDecl{}
+	in.litDefs = map[*types.Var]*ast.AssignStmt{}
+	in.litCalls = map[*types.Var]int{}
+	for _, f := range in.pkg.Syntax {
+		if strings.HasSuffix(in.pkg.Fset.File(f.Pos()).Name(), "_test.go") {
+			continue
+		}
+		defs := map[*types.Var]*ast.AssignStmt{}
+		lit := map[*types.Var]*ast.FuncLit{}
+		ast.Inspect(f, func(n ast.Node) bool {
+			as, ok := n.(*ast.AssignStmt)
+			if !ok || as.Tok != token.DEFINE || len(as.Lhs) != 1 || len(as.Rhs) != 1 {
+				return true
+			}
+			fl, isLit := as.Rhs[0].(*ast.FuncLit)
+			id, isId := as.Lhs[0].(*ast.Ident)
+			if !isLit || !isId {
+				return true
+			}
+			if v, ok := info.Defs[id].(*types.Var); ok {
+				defs[v] = as
+				lit[v] = fl
+			}
+			return true
+		})
+		if len(defs) == 0 {
+			continue
+		}
+		uses := map[*types.Var]int{}
+		calls := map[*types.Var]int{}
+		ast.Inspect(f, func(n ast.Node) bool {
+			switch x := n.(type) {
+			case *ast.CallExpr:
+				if id, ok := x.Fun.(*ast.Ident); ok {
+					if v, ok := info.Uses[id].(*types.Var); ok && defs[v] != nil {
+						calls[v]++
+					}
+				}
+			case *ast.Ident:
+				if v, ok := info.Uses[x].(*types.Var); ok && defs[v] != nil {
+					uses[v]++
+				}
+			}
+			return true
+		})
+		for v, as := range defs {
+			fl := lit[v]
+			if uses[v] == 0 || uses[v] != calls[v] {
+				continue // passed around as a value, or unused
+			}
+			bad := false
+			ast.Inspect(fl.Body, func(n ast.Node) bool {
+				switch x := n.(type) {
+				case *ast.DeferStmt, *ast.GoStmt, *ast.FuncLit:
+					bad = true
+				case *ast.Ident:
+					if info.Uses[x] == types.Object(v) {
+						bad = true // recursive
+					}
+				}
+				return true
+			})
+			for _, fld := range fl.Type.Params.List {
+				if len(fld.Names) == 0 {
+					bad = true
+				}
+			}
+			if sig, ok := v.Type().(*types.Signature); !ok || sig.Variadic() {
+				bad = true
+			}
+			if bad {
+				continue
+			}
+			in.lits[v] = &ast.FuncDecl{Name: ast.NewIdent(v.Name()), Type: fl.Type, Body: fl.Body}
+			in.litDefs[v] = as
+			in.litCalls[v] = calls[v]
+		}
+	}
 }
 
 // flush prints the changed files into the overlay.
@@ -577,20 +698,37 @@ func (in *inliner) site(file *ast.File, encl *ast.FuncDecl, st ast.Stmt) []ast.S
 			return nil // method expression
 		}
 	}
+	var fd *ast.FuncDecl
+	var sig *types.Signature
+	var litVar *types.Var
 	if fn == nil {
-		return nil
-	}
-	fd := in.cands[fn]
-	if fd == nil {
-		return nil
-	}
-	if encl != nil {
-		if efn, _ := info.Defs[encl.Name].(*types.Func); efn == fn {
+		// a local closure that is only ever called
+		if id, ok := call.Fun.(*ast.Ident); ok {
+			if v, ok := info.Uses[id].(*types.Var); ok && in.lits[v] != nil {
+				fd = in.lits[v]
+				sig, _ = v.Type().(*types.Signature)
+				litVar = v
+			}
+		}
+		if fd == nil || sig == nil {
 			return nil
 		}
+	} else {
+		fd = in.cands[fn]
+		if fd == nil {
+			return nil
+		}
+		if encl != nil {
+			if efn, _ := info.Defs[encl.Name].(*types.Func); efn == fn {
+				return nil
+			}
+		}
+		sig = fn.Type().(*types.Signature)
 	}
-	sig := fn.Type().(*types.Signature)
 	key := helperKey(in.pkg.Name, fd)
+	if litVar != nil {
+		key = in.pkg.Name + "." + encl.Name.Name + "$" + litVar.Name()
+	}
 	skip := func(why string) []ast.Stmt {
 		in.note("%s: a call in %s is not inlined (%s)", key, encl.Name.Name, why)
 		return nil
@@ -776,7 +914,21 @@ func (in *inliner) site(file *ast.File, encl *ast.FuncDecl, st ast.Stmt) []ast.S
 				return skip("constant argument of a named type")
 			} else if !types.Identical(tv.Type, pt) {
 				if tv.IsNil() {
-					return skip("nil argument")
+					// the zero value of the parameter's type is nil: declare it instead of binding
+					ts := types.TypeString(pt, func(p *types.Package) string {
+						if p == in.pkg.Types {
+							return ""
+						}
+						return p.Name()
+					})
+					texpr, err := parseTypeExpr(ts)
+					if err != nil || !in.typeUsable(file, pt) || nm.Name == "_" {
+						return skip("nil argument")
+					}
+					pre = append(pre, &ast.DeclStmt{Decl: &ast.GenDecl{Tok: token.VAR, Specs: []ast.Spec{&ast.ValueSpec{Names: []*ast.Ident{ast.NewIdent(nm.Name + suffix)}, Type: texpr}}}})
+					useAll(nm.Name + suffix)
+					ai++
+					continue
 				} else {
 					return skip("argument type differs from parameter type")
 				}
@@ -953,6 +1105,9 @@ func (in *inliner) site(file *ast.File, encl *ast.FuncDecl, st ast.Stmt) []ast.S
 	}
 	clearPos(stmts)
 	in.counts[key]++
+	if litVar != nil {
+		in.litCalls[litVar]--
+	}
 	return stmts
 }
 
